@@ -186,7 +186,7 @@ func (m *Model) altMatches(alt, whole *Term, wu *writeUnit, col string, ev map[*
 				if b, ok := wu.Site.bindingFor(p); ok && b.V != nil {
 					e2 := m.newTermEval()
 					kfr := wu.Frame
-					if wu.Site.Helper != nil && b.Fr != nil && b.Fr.caller != nil {
+					if b.Fr != nil && b.Fr.caller != nil {
 						kfr = rerootFrame(b.Fr, wu.Frame)
 					}
 					kt := e2.term(b.V, wu.Site.Call, kfr)
@@ -624,6 +624,19 @@ func (m *Model) ruleEXP(r *Results) {
 	}
 	if ne < 6 {
 		r.undecided(rule, "e / instance-floor", "-", "only %d calls of the offset-to-absolute function", ne)
+	}
+	// (c') arming is not optional: the functions through which a writer arms the timer take the
+	// manager's lock unconditionally (a TryLock that fails skips the arming of a deadline that no
+	// pass has seen)
+	for _, af := range m.armFns() {
+		for g := range m.reachableLocal(af) {
+			m.eachCall(g, func(c ssa.CallInstruction) {
+				callee := c.Common().StaticCallee()
+				if callee != nil && callee.Pkg != nil && callee.Pkg.Pkg.Path() == "sync" && (callee.Name() == "TryLock" || callee.Name() == "TryRLock") {
+					r.bad(rule, "c / "+m.declName(g)+" / arming never skipped", m.instrPos(c), "the timer is armed under a conditional lock acquisition (%s): when an expiry pass happens to hold the lock the writer's deadline is dropped, and the pass re-arms from a minimum it read before this write committed", callee.Name())
+				}
+			})
+		}
 	}
 	// (b) closures that store an expiry but hand out no event must have their caller arm the timer with that value
 	arms := m.armFns()
